@@ -89,6 +89,10 @@ pub fn check_li(r: &mut Recorder, input: &[u8], exp: &Value) {
             if !(*v == ser.as_str()) {
                 r.dis(&["C12"], "li-ne-own-text", det(input, json!(ser), json!(false)));
             }
+            // 'und' is the empty language, and the only one (C15); one representation (C12)
+            if v.language.is_empty() != (v.language.as_str() == "und") || (v.language.is_empty() && v.language != Language::default()) {
+                r.dis(&["C15", "C12"], "und-has-two-representations", det(input, json!("und <=> is_empty <=> == default()"), json!({"as_str": v.language.as_str(), "is_empty": v.language.is_empty()})));
+            }
             // C13: Locale accepts it with an identical id, no extensions, same text
             match guard(|| Locale::from_bytes(input)) {
                 Ok(Ok(l)) => {
@@ -210,7 +214,8 @@ pub fn check_loc(r: &mut Recorder, input: &[u8], exp: &Value) {
                     if p != exp["val"] {
                         r.dis(&["C03"], &format!("loc-value-{}", zone), det(input, exp["val"].clone(), p.clone()));
                     }
-                    if b(&ser) != exp["ser"] {
+                    // (a library that SUPPORTS other extensions prints them too: text not compared there)
+                    if zone != "other" && b(&ser) != exp["ser"] {
                         r.dis(&["C04", "C03"], &format!("loc-ser-{}", zone), det(input, exp["ser"].clone(), json!(ser)));
                     }
                 }
@@ -306,7 +311,7 @@ pub fn check_ext(r: &mut Recorder, input: &[u8], exp: &Value) {
                     if p != exp["val"] {
                         r.dis(&["C03"], &format!("ext-value-{}", zone), det(input, exp["val"].clone(), p));
                     }
-                    if b(&e.to_string()) != exp["ser"] {
+                    if zone != "other" && b(&e.to_string()) != exp["ser"] {
                         r.dis(&["C04"], &format!("ext-ser-{}", zone), det(input, exp["ser"].clone(), json!(e.to_string())));
                     }
                 }
@@ -504,6 +509,9 @@ pub fn check_hist(r: &mut Recorder, c: &Value) {
         }
         if empties(&loc.extensions) != st["empties"] && !st["empties"].is_null() {
             bad.push("is_empty");
+        }
+        if loc.id.language.is_empty() != (loc.id.language.as_str() == "und") {
+            bad.push("language-is_empty");
         }
         if !bad.is_empty() {
             let mut props = vec!["C10"];
